@@ -2,6 +2,7 @@
    the correspondence requires the implementation's Hash::hash count to be <= the model's). *)
 Require Import LruV.A.CostA LruV.A.PanicCost.
 Require Import LruV.A.MonitorsSound LruV.A.MonitorsA LruV.A.PanicProps.
+Require Import LruV.A.InvA LruV.B.StepB LruV.B.RefineB LruV.B.ReachB.
 
 (* For every operation, state and oracle: with departed = len before + (1 if a new entry was added) - len after,
      hashes <= 2 + departed + (if the table was rebuilt then the number of held entries else 0);
@@ -40,7 +41,22 @@ Theorem C20_monitor_sound : forall E VS, 0 < E -> VS <= E -> forall s p o s' out
   stepA E VS fixed s p o = Some (s', out, evs) -> c20_mon s p (e_hashes evs) (e_rebuilt evs) s' = true.
 Proof. exact c20_mon_sound. Qed.
 
+(* at pointer level: the number of Hash calls of every step of the heap-of-nodes model from a reachable state obeys the bound,
+   hash-free operations hash nothing, and only growth, reserve and shrink rebuild the table *)
+Theorem C20_pointer_level : forall E VS, 0 < E -> VS <= E -> forall b p oB b' out evs,
+  ReachB E VS b -> wf_op E (absB b) p -> stepB E VS b p oB = Some (b', out, evs) ->
+  e_hashes evs + len (absB b') <= 2 + len (absB b) + added p out + (if e_rebuilt evs then len (absB b') else 0) /\
+  (hash_free p = true -> e_hashes evs = 0) /\
+  (e_rebuilt evs = true -> may_rebuild p = true).
+Proof.
+  intros E VS HE HV b p oB b' out evs HR Hwf Hstep.
+  destruct (reachB_sound E VS HE HV b HR) as [_ HRa]. pose proof (reach_inv E VS HE HV _ HRa) as HI.
+  destruct (reachB_step E VS HE HV b _ oB b' out evs HR Hstep) as (HA & HRI & _).
+  exact (C20_bound E VS HE HV _ p _ _ out evs HI Hwf HA).
+Qed.
+
 Print Assumptions C20_bound.
 Print Assumptions C20_clone.
 Print Assumptions C20_hash_points.
 Print Assumptions C20_monitor_sound.
+Print Assumptions C20_pointer_level.
